@@ -409,8 +409,7 @@ End F.
 Section G.
 Variable pf : str -> option fl.
 
-(** the forms the reader insists on (outside F14) and, for self-closing contours, no
-    attributes (outside F16) *)
+(** the forms the reader insists on (outside F14) *)
 Definition outline_node (ver : N) (n : node) : Prop :=
   match n with
   | Elem name a kids =>
@@ -418,7 +417,7 @@ Definition outline_node (ver : N) (n : node) : Prop :=
       Forall (point_node pf ver) (tview kids) /\
       legal (map (fun p => spec_pt (attrs_of p)) (tview kids))
   | Empty name a =>
-      (ekind_of name = Some KContour /\ a = []) \/
+      (ekind_of name = Some KContour /\ attrs_ok pf ver KContour a /\ (ver = 1 -> a = [])) \/
       (ekind_of name = Some KComponent /\ attrs_ok pf ver KComponent a)
   | _ => False
   end.
@@ -446,9 +445,18 @@ Proof.
       - apply in_rev in Hin. exact (ND3 i Hin Hi).
       - apply (HF i); [apply in_app_iff; right; exact Hi|exact Hin]. }
     destruct n as [name a|name a kids| | | | | |]; try contradiction; cbn [parse_outline_kids flat_map].
-    + destruct Hn as [[EK ->]|[EK AO]]; rewrite EK.
-      * cbn [onode_ids attr_ident] in *. unfold attr_ident in *. cbn [lookup app rev] in *.
-        apply IH; auto.
+    + destruct Hn as [(EK & AO & HG)|[EK AO]]; rewrite EK.
+      * cbn [onode_ids] in *.
+        destruct (attrs_ok_loop pf ver KContour a seen AO) as (parsed & L & F2).
+        { rewrite (ids_in_ident KContour a (ident_kind_cases KContour) (proj1 AO)).
+          intros i Hi. apply HF. apply in_app_iff. left; exact Hi. }
+        { rewrite (ids_in_ident KContour a (ident_kind_cases KContour) (proj1 AO)). exact ND1. }
+        { intros _. exact HG. }
+        rewrite (ids_in_ident KContour a (ident_kind_cases KContour) (proj1 AO)) in L.
+        rewrite L. cbn [bind].
+        destruct (IH (rev (attr_ident a) ++ seen) cs ks HN' ND2) as (cs' & ks' & E).
+        { apply HF2. intros i Hi. apply in_app_iff in Hi. exact Hi. }
+        rewrite E. rewrite rev_app_distr, <- app_assoc. eexists; eexists; reflexivity.
       * destruct (parse_component_complete pf ver seen a AO) as (c & D & P).
         { intros i Hi. apply HF. apply in_app_iff. left; exact Hi. }
         rewrite P. cbn [bind onode_ids].
@@ -510,7 +518,13 @@ Lemma parse_unicode_complete ver seen a cps :
 Proof.
   intros AO. destruct (loop_noid ver KUnicode a seen AO (no_ident_arm KUnicode)) as (parsed & L & F2); [discriminate|].
   unfold parse_unicode. rewrite L. cbn [bind].
-  destruct (lookup k_hex parsed) as [[]|]; eexists; reflexivity.
+  destruct AO as (ND & HV & HR). specialize (HR k_hex (or_introl eq_refl)).
+  apply in_map_iff in HR as ([key' v] & E & Hkv). cbn [fst] in E. subst key'.
+  pose proof (store_lookup pf ver KUnicode a parsed k_hex F2) as H.
+  rewrite (lookup_NoDup _ _ _ ND Hkv) in H.
+  destruct (lookup k_hex parsed) as [x|]; [|discriminate].
+  destruct H as (v' & ty & La & Lt & PR). vm_compute in Lt. inversion Lt; subst ty.
+  destruct PR as (c & -> & _). eexists; reflexivity.
 Qed.
 
 (** a child of <glyph> as the reader wants it: rule-obeying, leaf elements self-closing, lib and
@@ -524,14 +538,14 @@ Definition child_node (ver : N) (n : node) : Prop :=
       | Some KImage => ver = 2 /\ attrs_ok pf ver KImage a
       | Some KAnchor => ver = 2 /\ attrs_ok pf ver KAnchor a
       | Some KGuideline => ver = 2 /\ attrs_ok pf ver KGuideline a /\ guideline_shape a
-      | Some KOutline => True
+      | Some KOutline => a = []
       | _ => False
       end
   | Elem name a kids =>
       match ekind_of name with
-      | Some KOutline => Forall (outline_node pf ver) (tview kids)
-      | Some KLib => lib_dict pf n <> None
-      | Some KNote => ver = 2
+      | Some KOutline => a = [] /\ Forall (outline_node pf ver) (tview kids)
+      | Some KLib => a = [] /\ lib_dict pf n <> None
+      | Some KNote => a = [] /\ ver = 2
       | _ => False
       end
   | _ => False
@@ -551,14 +565,14 @@ Definition flags_ok (st : pst) (l : list node) : Prop :=
   ((st_out st = true -> count_kind KOutline l = 0%nat) /\ (count_kind KOutline l <= 1)%nat) /\
   ((st_lib st = true -> count_kind KLib l = 0%nat) /\ (count_kind KLib l <= 1)%nat) /\
   ((gimage (st_g st) <> None -> count_kind KImage l = 0%nat) /\ (count_kind KImage l <= 1)%nat) /\
-  ((gnote (st_g st) <> None -> count_kind KNote l = 0%nat) /\ (count_kind KNote l <= 1)%nat).
+  ((st_note st = true -> count_kind KNote l = 0%nat) /\ (count_kind KNote l <= 1)%nat).
 
 Lemma count_kind_cons k n l :
   count_kind k (n :: l) = ((if is_kind k n then 1 else 0) + count_kind k l)%nat.
 Proof. unfold count_kind. cbn [filter]. destruct (is_kind k n); reflexivity. Qed.
 
 Ltac gsimpl :=
-  cbn [st_g st_seen st_adv st_lib st_out set_adv set_cps set_note set_image set_guides set_anchors
+  cbn [st_g st_seen st_adv st_lib st_out st_note set_adv set_cps set_note set_image set_guides set_anchors
        set_outline set_lib gname gwidth gheight gcps gnote gimage gguides ganchors gcomps gcontours
        glib] in *.
 Ltac kind_simpl EK :=
@@ -617,7 +631,7 @@ Proof.
       assert (SO : st_out st = false).
       { destruct (st_out st); [|reflexivity]. destruct FO as [FO _]. specialize (FO eq_refl).
         revert FO. kind_simpl EK. discriminate. }
-      rewrite SO. eexists. split; [reflexivity|]. split; [reflexivity|]. unfold flags_ok; gsimpl.
+      rewrite SO. subst a. cbn [no_attrs]. eexists. split; [reflexivity|]. split; [reflexivity|]. unfold flags_ok; gsimpl.
       revert FA FO FLb FI FN. kind_simpl EK. intros. repeat split; try tauto; lia.
   - destruct (ekind_of name) as [k|] eqn:EK; [|contradiction].
     destruct k; try contradiction; unfold parse_child; rewrite EK.
@@ -625,7 +639,7 @@ Proof.
       assert (SO : st_out st = false).
       { destruct (st_out st); [|reflexivity]. destruct FO as [FO _]. specialize (FO eq_refl).
         revert FO. kind_simpl EK. discriminate. }
-      rewrite SO. unfold parse_outline.
+      rewrite SO. destruct CN as [-> CN]. cbn [no_attrs]. unfold parse_outline.
       destruct (parse_outline_kids_complete pf ver (tview kids) (st_seen st) [] [] CN ND HF) as (cs & ks & ->).
       cbn [bind]. destruct (if ver =? 1 then v1_split cs else ([], cs)) as [an cs'].
       eexists. split; [reflexivity|]. split; [reflexivity|]. unfold flags_ok; gsimpl.
@@ -634,15 +648,15 @@ Proof.
       assert (SL : st_lib st = false).
       { destruct (st_lib st); [|reflexivity]. destruct FLb as [FLb _]. specialize (FLb eq_refl).
         revert FLb. kind_simpl EK. discriminate. }
-      rewrite SL. unfold lib_dict, kids_of in CN; cbn [as_elem] in CN.
+      rewrite SL. destruct CN as [-> CN]. cbn [no_attrs negb]. unfold lib_dict, kids_of in CN; cbn [as_elem] in CN.
       destruct (plist_of_nodes pf kids) as [[]|]; try congruence.
       eexists. split; [reflexivity|]. split; [reflexivity|]. unfold flags_ok; gsimpl.
       revert FA FO FLb FI FN. kind_simpl EK. intros. repeat split; try tauto; lia.
     + (* note *)
-      subst ver. cbn [N.eqb].
-      assert (GN : gnote (st_g st) = None).
-      { destruct (gnote (st_g st)) eqn:E; [|reflexivity]. destruct FN as [FN _].
-        assert (X : Some s <> None) by discriminate. specialize (FN X). revert FN. kind_simpl EK. discriminate. }
+      destruct CN as [-> ->]. cbn [N.eqb no_attrs negb].
+      assert (GN : st_note st = false).
+      { destruct (st_note st); [|reflexivity]. destruct FN as [FN _]. specialize (FN eq_refl).
+        revert FN. kind_simpl EK. discriminate. }
       rewrite GN. eexists. split; [reflexivity|]. split; [reflexivity|]. unfold flags_ok; gsimpl.
       revert FA FO FLb FI FN. kind_simpl EK. intros. repeat split; try tauto; try lia; try (intros _; lia).
 Qed.
@@ -785,15 +799,15 @@ Proof.
 Qed.
 
 Lemma outline_child_convert ver k :
-  outline_child_ok pf ver k -> f14_node 1 k = false -> f16_outline_child k = false ->
+  outline_child_ok pf ver k -> f14_node 1 k = false ->
   outline_node pf ver k /\ onode_ids k = outline_child_ids k.
 Proof.
-  intros OK H14 H16. destruct OK as [(HK & AO & HP & LG)|LO].
+  intros OK H14. destruct OK as [(HK & AO & HP & LG)|LO].
   - destruct k as [name a|name a kids| | | | | |]; try discriminate.
-    + assert (a = []) as ->.
-      { revert H16. unfold f16_outline_child, is_kind. rewrite HK. destruct a; [reflexivity|discriminate]. }
-      split; [left; split; [exact HK|reflexivity]|].
-      unfold outline_child_ids, contour_ids, is_kind. rewrite HK. reflexivity.
+    + unfold kind_of, attrs_of in *; cbn [as_elem] in *.
+      split; [left; split; [exact HK|split; [exact AO|intros ->; eapply contour_v1_no_attrs; eauto]]|].
+      cbn [onode_ids]. unfold outline_child_ids, contour_ids, is_kind, kind_of, attrs_of, kids_of; cbn [as_elem].
+      rewrite HK. cbn [sig_kids filter flat_map]. rewrite app_nil_r. reflexivity.
     + unfold kind_of, attrs_of, kids_of in *; cbn [as_elem] in *.
       assert (KC : is_kind KContour (Elem name a kids) = true) by (apply is_kind_spec; exact HK).
       destruct (f14_elem 0 name a kids H14) as [NC FK]; [rewrite KC, orb_true_r; reflexivity|].
@@ -815,11 +829,11 @@ Proof.
 Qed.
 
 Lemma child_convert ver n :
-  child_ok pf ver n -> f14_node 2 n = false -> f16_child n = false ->
+  child_ok pf ver n -> f14_node 2 n = false ->
   (is_kind KNote n = true -> ver = 2) ->
   child_node pf ver n /\ child_pids n = child_ids n.
 Proof.
-  intros CO H14 H16 HN. unfold child_ok in CO. destruct (kind_of n) as [k|] eqn:HK; [|contradiction].
+  intros CO H14 HN. unfold child_ok in CO. destruct (kind_of n) as [k|] eqn:HK; [|contradiction].
   assert (LE : forall k', k = k' -> leaf_ok pf ver k' n ->
                In k' [KAdvance; KUnicode; KImage; KAnchor; KGuideline; KComponent; KPoint] ->
                exists name a, n = Empty name a /\ ekind_of name = Some k' /\ attrs_ok pf ver k' a).
@@ -842,7 +856,7 @@ Proof.
     unfold child_ids, is_kind, kind_of, attrs_of; cbn [as_elem]. rewrite EK. reflexivity.
   - (* outline *)
     destruct CO as [HA CO]. destruct n as [name a|name a kids| | | | | |]; try discriminate.
-    + unfold kind_of in HK; cbn [as_elem] in HK. cbn [child_node child_pids]. rewrite HK. split; [exact I|].
+    + unfold kind_of, attrs_of in *; cbn [as_elem] in *. cbn [child_node child_pids]. rewrite HK. split; [exact HA|].
       unfold child_ids, is_kind, kind_of, kids_of; cbn [as_elem]. rewrite HK. reflexivity.
     + unfold kind_of, attrs_of, kids_of in *; cbn [as_elem] in *.
       assert (KO : is_kind KOutline (Elem name a kids) = true) by (apply is_kind_spec; exact HK).
@@ -850,30 +864,24 @@ Proof.
       assert (SK : tview kids = sig_kids kids).
       { apply tview_sig_kids; [exact NC|]. eapply Forall_impl; [|exact CO].
         intros p [(HKp & _)|(HKp & _)]; eapply kind_elem; eauto. }
-      assert (H16' : existsb f16_outline_child (tview kids) = false).
-      { revert H16. unfold f16_child. rewrite KO. cbn [orb andb]. intros H.
-        apply orb_false_iff in H as [_ H]. exact H. }
       assert (CV : forall k, In k (sig_kids kids) -> outline_node pf ver k /\ onode_ids k = outline_child_ids k).
-      { intros k Hk. rewrite Forall_forall in CO, FK. apply outline_child_convert; [apply CO; exact Hk| |].
-        - apply FK. apply filter_In in Hk. apply Hk.
-        - rewrite SK in H16'. destruct (f16_outline_child k) eqn:E; [|reflexivity].
-          assert (existsb f16_outline_child (sig_kids kids) = true); [|congruence].
-          apply existsb_exists. exists k. auto. }
+      { intros k Hk. rewrite Forall_forall in CO, FK. apply outline_child_convert; [apply CO; exact Hk|].
+        apply FK. apply filter_In in Hk. apply Hk. }
       cbn [child_node child_pids]. rewrite HK, SK. split.
-      * apply Forall_forall. intros k Hk. apply CV. exact Hk.
+      * split; [exact HA|]. apply Forall_forall. intros k Hk. apply CV. exact Hk.
       * unfold child_ids. rewrite KO. unfold is_kind, kind_of, kids_of; cbn [as_elem]. rewrite HK. cbn [orb].
         clear - CV. induction (sig_kids kids) as [|k l IH]; [reflexivity|]. cbn [flat_map].
         rewrite (proj2 (CV k (or_introl eq_refl))), IH; [reflexivity|]. intros; apply CV; right; assumption.
   - (* lib *)
     destruct CO as [HA CO]. destruct n as [name a|name a kids| | | | | |]; try discriminate.
     + exfalso. apply CO. unfold lib_dict, kids_of; cbn [as_elem]. reflexivity.
-    + unfold kind_of in HK; cbn [as_elem] in HK. cbn [child_node child_pids]. rewrite HK. split; [exact CO|].
+    + unfold kind_of, attrs_of in *; cbn [as_elem] in *. cbn [child_node child_pids]. rewrite HK. split; [split; [exact HA|exact CO]|].
       unfold child_ids, is_kind, kind_of; cbn [as_elem]. rewrite HK. reflexivity.
   - (* note *)
     destruct CO as [HA CO]. destruct n as [name a|name a kids| | | | | |]; try discriminate.
     + exfalso. revert H14. cbn [f14_node f14_leaf]. unfold is_kind. rewrite HK. cbn. discriminate.
-    + pose proof HK as HK'. unfold kind_of in HK; cbn [as_elem] in HK. cbn [child_node child_pids]. rewrite HK.
-      split; [apply HN; apply is_kind_spec; exact HK'|].
+    + pose proof HK as HK'. unfold kind_of, attrs_of in HK, HA; cbn [as_elem] in HK, HA. cbn [child_node child_pids]. rewrite HK.
+      split; [split; [exact HA|apply HN; apply is_kind_spec; exact HK']|].
       unfold child_ids, is_kind, kind_of; cbn [as_elem]. rewrite HK. reflexivity.
 Qed.
 
@@ -931,17 +939,17 @@ Variable pf : str -> option fl.
 Lemma count_le_flags l :
   (count_kind KAdvance l <= 1)%nat -> (count_kind KOutline l <= 1)%nat -> (count_kind KLib l <= 1)%nat ->
   (count_kind KNote l <= 1)%nat -> (count_kind KImage l <= 1)%nat ->
-  forall name, flags_ok (mkPst (glyph_new name) [] false false false) l.
+  forall name, flags_ok (mkPst (glyph_new name) [] false false false false) l.
 Proof.
-  intros C1 C2 C3 C4 C5 name. unfold flags_ok, glyph_new; cbn [st_adv st_out st_lib st_g gimage gnote].
+  intros C1 C2 C3 C4 C5 name. unfold flags_ok, glyph_new; cbn [st_adv st_out st_lib st_note st_g gimage gnote].
   repeat split; auto; try discriminate; intros H; exfalso; apply H; reflexivity.
 Qed.
 
-(** COMPLETENESS: a rule-obeying document outside the known surface classes is accepted. *)
+(** COMPLETENESS: a rule-obeying document outside the surface classes F14, F17 is accepted. *)
 Theorem parse_complete d :
-  glif_ok pf d -> ~ F14 d -> ~ F16 d -> ~ F17 d -> exists g, parse_glif pf d = Ok g.
+  glif_ok pf d -> ~ F14 d -> ~ F17 d -> exists g, parse_glif pf d = Ok g.
 Proof.
-  intros (pre & root & post & ver & -> & HP & KR & AO & VO & CH & OL & C1 & C2 & C3 & C4 & C5 & ND) N14 N16 N17.
+  intros (pre & root & post & ver & -> & HP & KR & AO & VO & CH & OL & C1 & C2 & C3 & C4 & C5 & ND) N14 N17.
   assert (RO : root_of (pre ++ root :: post) = Some root).
   { apply root_of_app; [exact HP|]. destruct root; try discriminate; reflexivity. }
   (* the root is an element with start and end tag *)
@@ -967,13 +975,6 @@ Proof.
   assert (SK : tview kids = sig_kids kids).
   { apply tview_sig_kids; [exact NC|]. eapply Forall_impl; [|exact CH].
     intros n Hn. unfold child_ok in Hn. destruct (kind_of n) eqn:E; [eapply kind_elem; eauto|contradiction]. }
-  assert (F16c : existsb f16_child (tview kids) = false /\ f16_notes (tview kids) = false).
-  { split.
-    - destruct (existsb f16_child (tview kids)) eqn:E; [|reflexivity]. exfalso. apply N16.
-      exists (Elem rname a kids). split; [exact RO|left; exact E].
-    - destruct (f16_notes (tview kids)) eqn:E; [|reflexivity]. exfalso. apply N16.
-      exists (Elem rname a kids). split; [exact RO|right; exact E]. }
-  destruct F16c as [F16c F16n].
   assert (NV : forall n, In n (sig_kids kids) -> is_kind KNote n = true -> ver = 2).
   { intros n Hin Hn. destruct Hv as [-> | ->]; [|reflexivity]. exfalso. apply N17. right; right.
     exists (Elem rname a kids). split; [exact RO|right]. split; [exact VO|].
@@ -982,14 +983,12 @@ Proof.
   { intros n Hin. rewrite Forall_forall in CH, FK. apply child_convert.
     - apply CH; exact Hin.
     - apply FK. apply filter_In in Hin. apply Hin.
-    - rewrite SK in F16c. destruct (f16_child n) eqn:E; [|reflexivity].
-      assert (existsb f16_child (sig_kids kids) = true); [|congruence]. apply existsb_exists. eauto.
     - apply NV; exact Hin. }
   assert (PIDS : flat_map child_pids (sig_kids kids) = doc_ids (sig_kids kids)).
   { unfold doc_ids. clear - CV. induction (sig_kids kids) as [|n l IH]; [reflexivity|]. cbn [flat_map].
     rewrite (proj2 (CV n (or_introl eq_refl))), IH; [reflexivity|]. intros; apply CV; right; assumption. }
   rewrite SK.
-  destruct (parse_children_complete pf ver Hv (sig_kids kids) (mkPst (glyph_new name) [] false false false))
+  destruct (parse_children_complete pf ver Hv (sig_kids kids) (mkPst (glyph_new name) [] false false false false))
     as (st & PC).
   - apply Forall_forall. intros n Hn. apply CV; exact Hn.
   - apply count_le_flags; assumption.
@@ -1000,7 +999,7 @@ Proof.
     assert (NVn : name_valid name = true).
     { apply parse_start_spec in PS. apply PS. }
     rewrite <- SK in PC.
-    pose proof (parse_children_inv pf ver Hv (tview kids) [] _ st (inv_init pf name NVn ver) F16c PC) as I.
+    pose proof (parse_children_inv pf ver Hv (tview kids) [] _ st (inv_init pf name NVn ver) PC) as I.
     cbn [app] in I. rewrite SK in I.
     apply (load_object_libs_complete (doc_obj_ids (sig_kids kids))).
     + intros i Hi. eapply Permutation_in; [apply (i_perm _ _ _ _ I)|exact Hi].
